@@ -3,7 +3,7 @@ from props import crcucommon as C, gpcommon as G
 
 ID = "C14"
 RULE = ("Same scenario family as C03 with the generator weighted towards start_poll_synchronize_rcu() at generated points (also while the poll "
-        "worker callback is in flight), single polls and poll-until-true loops (outside sections), readers with sections. Oracles: at the first "
+        "worker callback is in flight; in half of the cases the polling grace-period counter is first fast-forwarded through the URCU_VERIF hook to 0-3 below ULONG_MAX or LONG_MAX or to an arbitrary value, i.e. the history has that many earlier polled grace periods and the ids wrap during the case), single polls and poll-until-true loops (outside sections), readers with sections. Oracles: at the first "
         "true result for a handle, no section that was open at that handle's start_poll entry is still open; a handle that returned true never "
         "returns false later; every poll-until-true loop terminates (10x-budget hang rule). Non-trivial: a handle was obtained while an earlier "
         "handle had been started (worker possibly active) and some section was open at a start_poll.  Up to 2 injected futex faults per case (k-th blocking FUTEX_WAIT returns spuriously or with EINTR). distinct = distinct case text.")
